@@ -144,6 +144,29 @@ pub fn replay_file(path: &str) -> i32 {
                 format!("MISMATCH printed {printed:?}, numeral {want}")
             }
         }
+        "witness_module" => {
+            // {"text": module text, "expect": [value texts for A0, A1, ...]}: every constant must hold its own value
+            use simfony::parse::ParseFromStr;
+            let text = j.get("text").and_then(|x| x.as_str()).unwrap_or("");
+            let want: Vec<String> = j.get("expect").and_then(|x| x.as_array()).map(|a| a.iter().filter_map(|x| x.as_str().map(|s| s.to_string())).collect()).unwrap_or_default();
+            match drive::guard(|| simfony::WitnessValues::parse_from_str(text)) {
+                Err(p) => format!("panic {p}"),
+                Ok(Err(e)) => format!("MISMATCH module rejected: {}", drive::first_line(&e.to_string())),
+                Ok(Ok(m)) => {
+                    let mut bad = vec![];
+                    for (i, w) in want.iter().enumerate() {
+                        match m.get(&simfony::str::WitnessName::from_str_unchecked(&format!("A{i}"))) {
+                            Some(got) => match simfony::Value::parse_from_str(w, got.ty()) {
+                                Ok(v) if v == *got => {}
+                                _ => bad.push(format!("A{i} = {got}, expected {w}")),
+                            },
+                            None => bad.push(format!("A{i} missing")),
+                        }
+                    }
+                    if bad.is_empty() { "module values ok".to_string() } else { format!("MISMATCH {}", bad.join("; ")) }
+                }
+            }
+        }
         "error_message" => {
             let text = j.get("program").and_then(|x| x.as_str()).unwrap_or("");
             match crate::props::c20::verdict(text) {
